@@ -215,7 +215,91 @@ def c_linear(ctx, args):
     return None
 
 
-CHECKS = {'expr': c_expr, 'trace': c_trace, 'qutip': c_qutip, 'linear': c_linear}
+def c_torch_expr(ctx, args):
+    """torchclifford polynomials: the subset of the arithmetic the port implements (polynomial / Pauli leaves; -, scalar *, /, +, -, @, reduce) against dense matrices.
+    The port drops terms below 1e-5 in reduce (its own default), so the comparison allows 1e-4."""
+    n, e = args
+    import torch, torchclifford as tc, vlib.impl_torch as TT
+
+    def leaf(o):
+        if o[0] == 0:
+            return TT.P(o[1])
+        if o[0] == 2:
+            ts = o[2]
+            return tc.paulialg.PauliPolynomial(TT.GS([t[1][0] for t in ts], 2 * n), TT.PS([t[1][1] for t in ts])).set_cs(torch.tensor([ccomplex(t[0]) for t in ts], dtype=torch.complex128))
+        raise NotImplementedError
+
+    def ev(x):
+        k = x[0]
+        if k == 0:
+            return leaf(x[1])
+        if k == 1:
+            return -ev(x[1])
+        if k == 2:
+            return ccomplex(x[1]) * ev(x[2])
+        if k == 3:
+            return ev(x[1]) / ccomplex(x[2])
+        if k == 4:
+            return ev(x[1]) + ev(x[2])
+        if k == 5:
+            return ev(x[1]) - ev(x[2])
+        if k == 6:
+            return ev(x[1]) @ ev(x[2])
+        if k == 7:
+            return ev(x[1]).reduce()
+        raise NotImplementedError
+    want = ev_dense(e, n)
+    if want is None or not isinstance(want, np.ndarray):
+        return None
+    try:
+        r = ev(e)
+    except (NotImplementedError, TypeError, AttributeError, RuntimeError, IndexError, ValueError):
+        ctx.res.count('torch_expr_unsupported')
+        return None                       # the port does not implement this combination (no number promotion, no monomials)
+    r = r.as_polynomial() if hasattr(r, 'as_polynomial') else r
+    if not hasattr(r, 'cs'):
+        return None
+    got = np.zeros((2 ** n, 2 ** n), dtype=complex)
+    for g, ph, c in zip(r.gs, r.ps, r.cs):
+        got = got + complex(c) * D.op([int(v) for v in g], int(round(float(ph))) % 4)
+    if not np.allclose(got, want, atol=1e-4, rtol=0):
+        return {'kind': 'oracle', 'where': 'torch:polynomial expression vs dense matrices', 'observed': [[[int(v) for v in g], float(ph), [complex(c).real, complex(c).imag]] for g, ph, c in zip(r.gs, r.ps, r.cs)][:8],
+                'expected': 'dense evaluation of the same expression', 'tags': ['torch']}
+    return None
+
+
+def c_reduce_large(ctx, args):
+    """reduce() / + on LOCAL-Hamiltonian-like polynomials of many qubits (strings that differ only far to the right, periodic bonds): exact term dictionary
+    computed in Python from the term list vs the library's result (no dense matrices, N up to 24)"""
+    be, n, terms, how = args               # terms [[g, p, c(real dyadic)], ...]; how: 'reduce' | 'add'
+    want = {}
+    for g, p, c in terms:
+        z = c * (1j ** (p % 4))
+        want[tuple(g)] = want.get(tuple(g), 0) + z
+    want = {k: v for k, v in want.items() if abs(v) > 1e-4}
+    h = len(terms) // 2
+    if be == 'np':
+        mk = lambda ts: pc.PauliPolynomial(NP.GS([t[0] for t in ts], 2 * n), np.array([t[1] for t in ts], dtype=np.int_)).set_cs(np.array([complex(t[2]) for t in ts]))
+    else:
+        import torch, torchclifford as tc, vlib.impl_torch as TT
+        mk = lambda ts: tc.paulialg.PauliPolynomial(TT.GS([t[0] for t in ts], 2 * n), TT.PS([t[1] for t in ts])).set_cs(torch.tensor([complex(t[2]) for t in ts], dtype=torch.complex128))
+    try:
+        r = mk(terms).reduce() if (how == 'reduce' or h == 0) else (mk(terms[:h]) + mk(terms[h:]))
+    except Exception as e:
+        return {'kind': 'oracle', 'where': '%s:reduce on %d qubits raised %s' % (be, n, type(e).__name__), 'observed': str(e)[:100], 'expected': 'a polynomial'}
+    got = {}
+    for g, ph, c in zip(r.gs, r.ps, r.cs):
+        k = tuple(int(round(float(v))) for v in g)
+        got[k] = got.get(k, 0) + complex(c) * (1j ** (int(round(float(ph))) % 4))
+    got = {k: v for k, v in got.items() if abs(v) > 1e-4}
+    if set(got) != set(want) or any(abs(got[k] - want[k]) > 1e-6 for k in want):
+        bad = [k for k in set(got) | set(want) if abs(got.get(k, 0) - want.get(k, 0)) > 1e-6][:3]
+        return {'kind': 'oracle', 'where': '%s:%s of a %d-qubit polynomial merges or loses terms' % (be, how, n), 'observed': [[list(k), str(got.get(k, 0))] for k in bad],
+                'expected': [[list(k), str(want.get(k, 0))] for k in bad], 'tags': ['reduce_large', be]}
+    return None
+
+
+CHECKS = {'reduce_large': c_reduce_large, 'torch_expr': c_torch_expr, 'expr': c_expr, 'trace': c_trace, 'qutip': c_qutip, 'linear': c_linear}
 
 COEFS = [1, -1, 2, -2, 3, 0.5, -0.5, 0.25, 1j, -1j, 2j, 1 + 1j, 1 - 1j, -1 + 2j, 0.5 + 0.5j, 3 - 1j, -0.75j]
 DIVS = [1, -1, 2, -2, 4, 1j, -1j, 2j, 1 + 1j, 1 - 1j, 0.5]
@@ -317,3 +401,23 @@ def run(ctx):
         mask = None if k == N else gen.rmask(rng, N, k)[0]
         o = rleaf(rng, N, ['poly'])
         do(ctx, 'linear', [N, o, gen.rpauli(rng, k, herm=True), gen.rmap(rng, ctx.model, k), mask], nontrivial=('l', it))
+    # the torch port's polynomial arithmetic (what it implements of it)
+    for it in range(int(150 * B)):
+        n = rng.randint(1, 3)
+        e = rexpr(rng, n, rng.randint(1, 3), ['pauli', 'poly', 'poly'])
+        do(ctx, 'torch_expr', [n, e], nontrivial=('te', str(e)) if has(e, (4, 5, 6)) else None)
+    # many qubits, local terms (fields, nearest-neighbour and periodic bonds, far-apart pairs): terms that differ only at the far end must stay apart
+    for it in range(int(60 * B)):
+        n = rng.choice([6, 12, 13, 14, 16, 20, 24])
+        site = lambda q, k: [(k >> 1) & 1 if j == 2 * q else (k & 1 if j == 2 * q + 1 else 0) for j in range(2 * n)]
+        terms = []
+        for _ in range(rng.randint(2, 8)):
+            q = rng.choice([0, 0, 1, rng.randrange(n)])
+            k = rng.choice([1, 2, 3])
+            g = site(q, k)
+            if rng.random() < 0.6:      # a second factor far away (periodic bond / long-range pair)
+                q2 = rng.choice([n - 1, n - 1, n - 2, rng.randrange(n)])
+                if q2 != q:
+                    g = [a | b for a, b in zip(g, site(q2, rng.choice([1, 2, 3])))]
+            terms.append([g, rng.choice([0, 0, 2, 1]), rng.choice([1.0, -1.0, 0.5, 2.0, -0.25])])
+        do(ctx, 'reduce_large', [rng.choice(['np', 'torch']), n, terms, rng.choice(['reduce', 'add'])], nontrivial=('rl', it))
